@@ -398,6 +398,23 @@ func gen(c *core.Ctx) error {
 						}
 					}
 				}
+				// poisoning: a forged first frame whose IV is the nonce of one of the receiver's own later
+				// frames, then that frame reflected back (and the genuine transcript): nothing of the
+				// receiver's own traffic may ever be delivered to it, however long it reads on
+				if !withSecret && !warm {
+					back := []ss.Msg{dmsg(11, 6), dmsg(12, 2, 3)}
+					for bj := 1; bj < 3; bj++ {
+						for _, tail := range [][]ss.EditItem{nil, full()} {
+							e := append([]ss.EditItem{{Kind: "poison", J: bj}, {Kind: "refl", J: bj, Flag: -1}}, tail...)
+							d := mk(fmt.Sprintf("reflect own frame %d after a forged first frame carrying its nonce as IV", bj), e)
+							d.Back = back
+							if ti == 0 {
+								d.API, d.ReadOn = "framewe", true
+							}
+							try(d)
+						}
+					}
+				}
 				// random multi-fault combinations
 				nr := 10
 				if !c.Quick() && !heavy {
